@@ -121,6 +121,17 @@ func allocCases(r *rng, thorough bool) []allocCase {
 			add(fmt.Sprintf("HandleArrayValues/mode%d", mode), d, func() bool { _, err := rjson.HandleArrayValues(d, ha, buf); return err == nil })
 			add(fmt.Sprintf("HandleObjectValues/mode%d", mode), d, func() bool { _, err := rjson.HandleObjectValues(d, ho, buf); return err == nil })
 		}
+		// the handler skips members with the traversal's OWN Buffer (as the repository's benchmark does)
+		for mode := 1; mode < 3; mode++ {
+			hs := &quietArr{inner: buf, mode: mode}
+			hos := &quietObj{inner: buf, mode: mode}
+			rjson.HandleArrayValues(d, hs, buf)
+			rjson.HandleObjectValues(d, hos, buf)
+			rjson.HandleArrayValues(d, hs, buf)
+			rjson.HandleObjectValues(d, hos, buf)
+			add(fmt.Sprintf("HandleArrayValues/shared-buffer-mode%d", mode), d, func() bool { _, err := rjson.HandleArrayValues(d, hs, buf); return err == nil })
+			add(fmt.Sprintf("HandleObjectValues/shared-buffer-mode%d", mode), d, func() bool { _, err := rjson.HandleObjectValues(d, hos, buf); return err == nil })
+		}
 	}
 	// numbers on every conversion path
 	nums := append([]string{}, numberPool...)
